@@ -183,6 +183,26 @@ func TestWorker(t *testing.T) {
 			ch = NewReplayChoice(rf.Vector)
 		}
 		rc := runOne(t, rf.Property, rf.Tier, rf.Seed, ch, rf.Params)
+		// Worlds with a source of nondeterminism the simulator cannot own (Go map iteration inside
+		// OnExecute) may need several attempts to take the same branch again.
+		for attempt := int64(1); attempt < envInt("VERIF_REPLAY_ATTEMPTS", 1); attempt++ {
+			hit := false
+			for _, v := range rc.Viol {
+				if v.Property == rf.Violation.Property && v.Key == rf.Violation.Key {
+					hit = true
+				}
+			}
+			if hit {
+				break
+			}
+			if rf.Vector == nil {
+				ch = NewSeedChoice(rf.Seed)
+			} else {
+				ch = NewReplayChoice(rf.Vector)
+			}
+			rc = runOne(t, rf.Property, rf.Tier, rf.Seed, ch, rf.Params)
+			total.Inc("replay_extra_attempts", 1)
+		}
 		out.Runs = 1
 		total.Merge(rc.Stats)
 		for _, v := range rc.Viol {
@@ -289,10 +309,15 @@ func minimise(t *testing.T, prop, tier string, seed uint64, params map[string]st
 			return nil, false
 		}
 		tries++
-		r := runOne(t, prop, tier, seed, NewReplayChoice(vec), params)
-		for _, x := range r.Viol {
-			if x.Property == v.Property && x.Key == v.Key {
-				return r, true
+		for attempt := int64(0); attempt < envInt("VERIF_REPLAY_ATTEMPTS", 1); attempt++ {
+			r := runOne(t, prop, tier, seed, NewReplayChoice(vec), params)
+			for _, x := range r.Viol {
+				if x.Property == v.Property && x.Key == v.Key {
+					return r, true
+				}
+			}
+			if attempt >= 2 {
+				break
 			}
 		}
 		return nil, false
